@@ -157,15 +157,21 @@ class GeneralInstanceGenerator(InstanceGenerator):
         duration = random.randint(*self.duration_range)
 
         if self.machines_per_operation[1] > 1:
-            machines = self._choose_multiple_machines()
+            machines = self._choose_multiple_machines(available_machines)
             return Operation(machines=machines, duration=duration)
 
         machine_id = self._choose_one_machine(available_machines)
         return Operation(machines=machine_id, duration=duration)
 
-    def _choose_multiple_machines(self) -> list[int]:
+    def _choose_multiple_machines(
+        self, available_machines: list[int] | None = None
+    ) -> list[int]:
         num_machines = random.randint(*self.machines_per_operation)
-        available_machines = list(range(num_machines))
+        if available_machines is None:
+            _, max_num_machines = self.num_machines_range
+            available_machines = list(range(max_num_machines))
+        else:
+            available_machines = list(available_machines)
         machines = []
         for _ in range(num_machines):
             machine = random.choice(available_machines)
